@@ -1397,8 +1397,8 @@ class Array(RegisterObject):
 
         arg = type(self)._generic_arg_
 
-        start = arg.offset - self._global_offset_
-        stop = arg.end - self._global_offset_
+        start = 0
+        stop = arg.end - arg.offset
         step = arg.array_step
 
         elements = []
